@@ -423,7 +423,7 @@ enum Got {
     Stuck(usize),
 }
 
-fn read_all<R: Read>(mut r: R, k: usize, body_len: usize) -> Got {
+fn read_all<R: Read>(mut r: R, k: usize, body_len: usize, retry: bool) -> Got {
     let mut buf = vec![0u8; k];
     let mut out = Vec::new();
     // every call hands out at least one byte; the output is at most 3 bytes per input byte (+ a final U+FFFD)
@@ -434,6 +434,7 @@ fn read_all<R: Read>(mut r: R, k: usize, body_len: usize) -> Got {
             Ok(0) => return Got::Ok(out),
             Ok(n) if n > k => return Got::Err(format!("read with a {k}-byte buffer returned {n}")),
             Ok(n) => out.extend_from_slice(&buf[..n]),
+            Err(e) if retry && matches!(e.kind(), std::io::ErrorKind::Interrupted | std::io::ErrorKind::WouldBlock | std::io::ErrorKind::TimedOut) => {}
             Err(e) => return Got::Err(e.to_string()),
         }
         calls += 1;
@@ -476,6 +477,23 @@ fn exec(
     uniform: Option<usize>,
     free_fn: bool,
 ) -> Got {
+    exec_f(wire, body_start, sdef, rdef, entry, cuts, uniform, free_fn, None)
+}
+
+/// `fault`: one transport read at this body offset fails with a transient error first; a caller of
+/// the streaming reader simply reads again (as std's read_to_string does on Interrupted).
+#[allow(clippy::too_many_arguments)]
+fn exec_f(
+    wire: &Arc<Vec<u8>>,
+    body_start: usize,
+    sdef: Option<Enc>,
+    rdef: Option<Enc>,
+    entry: Entry,
+    cuts: &[usize],
+    uniform: Option<usize>,
+    free_fn: bool,
+    fault: Option<(usize, FaultKind)>,
+) -> Got {
     let body_len = wire.len() - body_start;
     let script = Script {
         wire: wire.clone(),
@@ -483,12 +501,13 @@ fn exec(
             cuts: cuts.iter().map(|c| body_start + c).filter(|&c| c > 0).collect(),
             uniform,
         },
-        fault: None,
+        fault: fault.map(|(at, k)| (body_start + at, k)),
         end: End::Eof,
         write_max: None,
         repeat: None,
         repeat_cap: 0,
     };
+    let retry = fault.is_some();
     let _world = World::single(script, false);
     let r = guarded(|| -> Got {
         let rb = match sdef {
@@ -511,8 +530,8 @@ fn exec(
             Entry::Text => fin(resp.text()),
             Entry::TextWith(x) => fin(resp.text_with(x)),
             Entry::TextUtf8 => fin(resp.text_utf8()),
-            Entry::Reader(k) => read_all(resp.text_reader(), k, body_len),
-            Entry::ReaderWith(x, k) => read_all(resp.text_reader_with(x), k, body_len),
+            Entry::Reader(k) => read_all(resp.text_reader(), k, body_len, retry),
+            Entry::ReaderWith(x, k) => read_all(resp.text_reader_with(x), k, body_len, retry),
         }
     });
     match r {
@@ -1173,6 +1192,70 @@ fn part_b_large(ctx: &Ctx) -> (Acc, Value) {
 
 // ---------------------------------------------------------------------------------------------
 
+//
+// Part C: a transient transport error is one more way of splitting the body into reads. One read
+// at body offset `at` fails first (Interrupted: std's read_to_string, which text() is built on,
+// reads again by itself; WouldBlock / TimedOut: a caller of the streaming reader reads again);
+// the string must be the one decoded without the fault.
+//
+fn part_c(ctx: &Ctx) -> u64 {
+    use encoding_rs::*;
+    let texts: [(Enc, &str); 5] = [
+        (UTF_8, "a\u{e9}\u{20ac}\u{1f600}z-tail"),
+        (SHIFT_JIS, "\u{30c6}\u{30b9}\u{30c8}abc\u{ff76}"),
+        (WINDOWS_1252, "caf\u{e9} \u{20ac}uro"),
+        (UTF_16LE, "h\u{e9}llo\u{1f600}"),
+        (GB18030, "\u{4e2d}\u{6587}x\u{20ac}"),
+    ];
+    let mut n = 0u64;
+    for (enc, text) in texts {
+        let body: Vec<u8> = if enc == UTF_16LE { text.encode_utf16().flat_map(|u| u.to_le_bytes()).collect() } else { enc.encode(text).0.into_owned() };
+        let ct = ct_for(enc, true);
+        let (wire, body_start) = build_wire(&ct, &body);
+        for uniform in [None, Some(1), Some(3)] {
+            for entry in [Entry::Text, Entry::TextWith(enc), Entry::Reader(1), Entry::Reader(5), Entry::Reader(8192), Entry::ReaderWith(enc, 2)] {
+                let want = exec(&wire, body_start, None, None, entry, &[], uniform, false);
+                n += 1;
+                if !matches!(&want, Got::Ok(o) if *o == text.as_bytes()) {
+                    ctx.violation("C18:wrong-decoding:part-c-baseline", format!("{} body {:?} read with {entry:?}: {want:?}, expected {text:?}", enc.name(), short(&body)), json!({"engine": "c18", "part_c": true}), n);
+                    continue;
+                }
+                for at in 0..=body.len() {
+                    for kind in [FaultKind::Interrupted, FaultKind::WouldBlock, FaultKind::TimedOut] {
+                        let streaming = matches!(entry, Entry::Reader(_) | Entry::ReaderWith(..));
+                        if !streaming && kind != FaultKind::Interrupted {
+                            continue; // the one-shot helpers rightly give up on a real error
+                        }
+                        if kind != FaultKind::Interrupted && at < 3 {
+                            // encoding_rs_io's BOM peeker forgets the 1-2 bytes it already holds when
+                            // a read fails with a real error (DESIGN.md observation O10): a dependency's
+                            // treatment of I/O errors, not a split of the body into reads
+                            continue;
+                        }
+                        n += 1;
+                        let got = exec_f(&wire, body_start, None, None, entry, &[], uniform, false, Some((at, kind)));
+                        if !matches!((&got, &want), (Got::Ok(a), Got::Ok(b)) if a == b) {
+                            ctx.violation(
+                                format!("C18:stream-differs-after-transient-error:{}", if streaming { "text_reader" } else { "text" }),
+                                format!(
+                                    "{} body {} ({text:?}), transport reads of {uniform:?} bytes, one read at body offset {at} fails with {kind:?} and the caller reads on, {entry:?}: got {}, without the fault {}",
+                                    enc.name(),
+                                    short(&body),
+                                    match &got { Got::Ok(o) => format!("{:?}", String::from_utf8_lossy(o)), g => format!("{g:?}") },
+                                    match &want { Got::Ok(o) => format!("{:?}", String::from_utf8_lossy(o)), g => format!("{g:?}") },
+                                ),
+                                json!({"engine": "c18", "part_c": true}),
+                                (at as u64) * 100 + n,
+                            );
+                        }
+                    }
+                }
+            }
+        }
+    }
+    n
+}
+
 pub fn c18(ctx: &Ctx) -> Report {
     let probe = probe_body();
     let (n_labels, distinct, same) = self_check(&probe);
@@ -1201,6 +1284,10 @@ pub fn c18(ctx: &Ctx) -> Report {
             }
         }
     }
+    let t = std::time::Instant::now();
+    let c_evals = part_c(ctx);
+    eprintln!("C18 part C (transient transport errors): {} executions, {:.1}s", c_evals, t.elapsed().as_secs_f64());
+    ctx.count("C_executions", c_evals);
     let total = a.evals + b.evals + l.evals;
     let bad = a.viol + b.viol + l.viol;
     ctx.merge_outcomes(&[("verdict:as-the-oracle-says".to_string(), total - bad)].into_iter().collect());
@@ -1214,12 +1301,13 @@ pub fn c18(ctx: &Ctx) -> Report {
     ctx.count("B_large_executions", l.evals);
 
     let mut rep = Report::new("exploration");
-    rep.set("evaluations", a.evals + b.evals + l.evals);
+    rep.set("evaluations", a.evals + b.evals + l.evals + c_evals);
+    rep.set("part_C_executions", c_evals);
     rep.set("distinct_nontrivial", a.nontrivial + b.nontrivial + l.nontrivial);
     rep.set("exhaustive", true);
     rep.set(
         "rule",
-        "Part A: full product of Content-Type value (absent, bare media type, 9 unknown labels, every WHATWG label in lower/UPPER/MiXeD spelling; each with and without the blank after ';') x 7 default-charset settings (none, session, request, both) x entry points (text, text_reader, text_utf8, text_with(X), text_reader_with(X)) [x transport policy in the thorough tier] on one probe body that separates all decoders; a case is non-trivial when some charset a wrong implementation could pick instead (the header's, either default, windows-1252, UTF-8) decodes the probe differently from every accepted output. Part B: every byte string up to the length bound over the 13-byte alphabet (and each of the 3 BOMs followed by every shorter string) x 12 charsets x every subset of inner body offsets as transport read boundaries x {caller buffer 1, 2, 3, 8192, read_to_string}; plus padded bodies around the 8 KiB buffer boundaries; non-trivial when decoding is not the identity on the body (or the body starts with the charset's own BOM). Cases are distinct by construction (products of duplicate-free lists; label spellings are de-duplicated).",
+        "Part A: full product of Content-Type value (absent, bare media type, 9 unknown labels, every WHATWG label in lower/UPPER/MiXeD spelling; each with and without the blank after ';') x 7 default-charset settings (none, session, request, both) x entry points (text, text_reader, text_utf8, text_with(X), text_reader_with(X)) [x transport policy in the thorough tier] on one probe body that separates all decoders; a case is non-trivial when some charset a wrong implementation could pick instead (the header's, either default, windows-1252, UTF-8) decodes the probe differently from every accepted output. Part B: every byte string up to the length bound over the 13-byte alphabet (and each of the 3 BOMs followed by every shorter string) x 12 charsets x every subset of inner body offsets as transport read boundaries x {caller buffer 1, 2, 3, 8192, read_to_string}; plus padded bodies around the 8 KiB buffer boundaries; non-trivial when decoding is not the identity on the body (or the body starts with the charset's own BOM). Part C: 5 multi-byte texts in 5 charsets x transport read size {whole, 1, 3} x {text, text_with, text_reader with caller buffers 1/5/8192, text_reader_with} x every body offset at which one transport read first fails with Interrupted (all entry points) or WouldBlock/TimedOut (streaming reader, the caller reads again; offsets >= 3, past the decoder's byte-order-mark look-ahead): same string as without the fault. Cases are distinct by construction (products of duplicate-free lists; label spellings are de-duplicated).",
     );
     rep.set("labels_in_reference_table", n_labels as u64);
     rep.set("probe_body_len", probe.len() as u64);
@@ -1238,6 +1326,15 @@ pub fn c18(ctx: &Ctx) -> Report {
 }
 
 pub fn replay(v: &Value) -> i32 {
+    if v["case"]["part_c"] == true {
+        let ctx = Ctx::new("C18", Tier::Quick);
+        part_c(&ctx);
+        let vs = ctx.drain_violations();
+        for (v, n) in &vs {
+            println!("{}: {} ({n} cases)", v.signature, v.what);
+        }
+        return if vs.is_empty() { 0 } else { 1 };
+    }
     let Some(c) = Case::from_json(&v["case"]) else {
         eprintln!("MACHINERY: replay file does not hold a c18 case");
         return 2;
